@@ -41,6 +41,11 @@ type funcContract struct {
 	hasMod   bool
 	// preserves: heap cells excluded from a coarse `modifies` (heap, pkg(..), elems)
 	preserves []string
+	// ghost code by decree: ghostWrites are havocked at every return of the function
+	// and then constrained by the `defines` clauses (assumed, not checked); callers see
+	// the same.  Only ghost variables may be constrained this way.
+	ghostWrites []string
+	defines     []clause
 	loops    map[int]*loopSpec
 	trusted  bool // contract not checked against a body
 	pure     bool // modifies nothing, result is a function of args+heap
@@ -275,7 +280,7 @@ func newContractSet() *contractSet {
 var clauseKeywords = map[string]bool{
 	"prop": true, "requires": true, "ensures": true, "modifies": true, "loop": true, "trusted": true,
 	"pure": true, "panics-if": true, "nopanic": true, "maypanic": true, "mode": true, "decreases": true, "refines": true,
-	"noframe": true, "using": true, "noinv": true, "rec": true, "preserves": true,
+	"noframe": true, "using": true, "noinv": true, "rec": true, "preserves": true, "ghost-writes": true, "defines": true,
 }
 
 var reLoop = regexp.MustCompile(`^(\d+)\s*:\s*(invariant|decreases)\s+(.*)$`)
@@ -480,6 +485,18 @@ func (cs *contractSet) loadContractFile(path, pkgPath string) error {
 							fc.modifies = append(fc.modifies, m)
 						}
 					}
+				case "ghost-writes":
+					for _, m := range strings.Split(rest, ",") {
+						if m = strings.TrimSpace(m); m != "" {
+							fc.ghostWrites = append(fc.ghostWrites, m)
+						}
+					}
+				case "defines":
+					cl, err := mk("defines", len(fc.defines)+1)
+					if err != nil {
+						return err
+					}
+					fc.defines = append(fc.defines, cl)
 				case "preserves":
 					for _, m := range strings.Split(rest, ",") {
 						m = strings.TrimSpace(m)
